@@ -65,7 +65,7 @@ def handleVerify (op : String) (a : Json) : Option Json :=
             | none => Json.mkObj [("res", "err")])
          | none => Json.mkObj [("res", "err")])
       | _ => Json.mkObj [("res", "err")])
-  | "verify" | "verify-rep" | "verify-hist" =>
+  | "verify" | "verify-rep" | "verify-hist" | "cliverify" =>
     let W := toWorld (fld a "world") (getInt a "now_ns")
     match loadMetadata (L (getStr a "layout_text")) with
     | .ok md =>
